@@ -449,13 +449,15 @@ def fault_trial(case, i, k, after, root, persistent=False):
         attempt("count", lambda: R.r.db.count(tf.TimeQuery().noop()))
         attempt("len", lambda: len(R.r.db))
         # answers the index alone can give: each must be the truth about the file the operation left, or an error
-        def idx_reads(db):
-            return dict(measurements=sorted(db.get_measurements()), tag_keys=sorted(db.get_tag_keys()),
-                        field_keys=sorted(db.get_field_keys()), timestamps=[str(t) for t in db.get_timestamps()],
-                        tag_values=sorted((k, sorted(map(repr, v))) for k, v in db.get_tag_values().items()))
+        IDX_READS = dict(measurements=lambda db: sorted(db.get_measurements()), tag_keys=lambda db: sorted(db.get_tag_keys()),
+                         field_keys=lambda db: sorted(db.get_field_keys()), timestamps=lambda db: [str(t) for t in db.get_timestamps()],
+                         tag_values=lambda db: sorted((k, sorted(map(repr, v))) for k, v in db.get_tag_values().items()))
 
-        for name in ("measurements", "tag_keys", "field_keys", "timestamps", "tag_values"):
-            attempt(name, lambda name=name: idx_reads(R.r.db)[name])
+        def idx_reads(db):
+            return {k: f(db) for k, f in IDX_READS.items()}
+
+        for name, f in IDX_READS.items():
+            attempt(name, lambda f=f: f(R.r.db))
         if not live.get("errors"):
             try:
                 if R.r.db.index.valid:
@@ -484,6 +486,8 @@ def fault_trial(case, i, k, after, root, persistent=False):
         try:
             undo, R.undo = R.undo, (lambda: None)
             undo()
+            if not any(k in live for k in IDX_READS):
+                raise LookupError("no index-only read answered: nothing to compare")
             ref_db = tf.TinyFlux(R.path, access_mode="r", encoding=R.enc, **R.kw)
             try:
                 obs["ref"] = idx_reads(ref_db)
